@@ -425,7 +425,23 @@ class Fn:
         ast.fix_missing_locations(ret)
         return sel + [ret]
 
+    def translate_fragment(self, frag):
+        stmts = self.fragment(frag)
+        binders = []
+        for n, t in self.spec["params"].items():
+            self.types[n] = t
+            if t == "Z":
+                binders.append("(%s : Z)" % ident(n))
+            elif t == "km":
+                binders.append("(%s_key : Z) (%s_mask : Z)" % (ident(n), ident(n)))
+            else:
+                raise Unsupported("bad fragment parameter type " + t)
+        body = self.block(stmts, None)
+        return "Definition %s %s :=\n  %s.\n" % (self.spec["coq"], " ".join(binders), body)
+
     def translate(self):
+        if self.spec.get("fragment"):
+            return self.translate_fragment(self.spec["fragment"])
         a = self.node.args
         if a.vararg or a.kwarg or a.kwonlyargs or a.posonlyargs:
             self.err(self.node, "parameter list")
@@ -464,8 +480,6 @@ class Fn:
                 binders.append("(%s : bool)" % ident(n))
             elif t == "slice":
                 binders.append("(%s : Z * Z)" % ident(n))
-            elif t == "km":
-                binders.append("(%s_key : Z) (%s_mask : Z)" % (ident(n), ident(n)))
             elif t.startswith("Z") and t[1:].isdigit():
                 k = int(t[1:])
                 binders.append("(%s : %s)" % (ident(n), " * ".join(["Z"] * k)))
@@ -473,7 +487,7 @@ class Fn:
                     ", ".join("%s_%d" % (ident(n), i) for i in range(k)), ident(n)))
             else:
                 raise Unsupported("bad parameter type " + t)
-        body = self.block(stmts, None)
+        body = self.block(list(self.node.body), None)
         return "Definition %s %s :=\n  %s\n  %s.\n" % (
             self.spec["coq"], " ".join(binders), "\n  ".join(pre), body)
 
